@@ -85,7 +85,7 @@ def hstateStr : HState → String
 def featStr (i : Invoice) : String :=
   let s := (if i.tlv then "t" else "") ++ (if i.payAddrOpt then "p" else "") ++
     (if i.payAddrReq then "P" else "") ++ (if i.mppOpt then "m" else "") ++
-    (if i.ampReq then "a" else "")
+    (if i.ampReq then "a" else "") ++ (if i.blinded then "b" else "")
   if s.isEmpty then "-" else s
 
 /-- the harness' canonical dump, produced from the model invoice. -/
@@ -155,6 +155,8 @@ structure NotifyRec where
   mpp : Option (Nat × String)
   amp : Option String      -- set id (hex)
   ks : String              -- "none" | hex | "-"
+  path : Option String := none   -- blinded path id (hex)
+  tot : Nat := 0                 -- blinded total_amt_msat
   deriving Repr, Inhabited
 
 structure St where
@@ -194,6 +196,7 @@ structure St where
   replaysChecked : Nat := 0
   transitionsChecked : Nat := 0
   paidChecked : Nat := 0
+  acceptsChecked : Nat := 0
   hist : List (String × Nat) := []
   clauseHits : List (String × Nat) := []
   samples : Nat := 0
@@ -241,6 +244,18 @@ def resClass (r : String) : String := (r.splitOn ":").headD "?"
 
 def resField (r : String) (i : Nat) : String := ((r.splitOn ":")[i]?).getD ""
 
+/-- payment-address rule for the notify `n` that created an htlc on an invoice requiring address
+    `addr`: the address the htlc carried — the MPP record's, else the blinded path ID — must be
+    exactly the invoice's; an htlc carrying neither is only admissible as a valid keysend (the
+    sender knows the preimage). `some reason` = violated. -/
+def addrViolation (n : NotifyRec) (addr : String) : Option String :=
+  match n.mpp, n.path with
+  | some (_, a), _ => if a != addr then some s!"mpp record carries {a}" else none
+  | none, some p => if p != addr then some s!"path id is {p}" else none
+  | none, none =>
+    if sha256Hex n.ks != some n.hash || n.ks.length != 64 then some "no payment address carried"
+    else none
+
 /-- checks for one settle resolution `r` for circuit key `k`. -/
 def checkSettle (s : St) (k : Nat) (r : String) : IO St := do
   let mut s := { s with settlesChecked := s.settlesChecked + 1 }
@@ -284,14 +299,8 @@ def checkSettle (s : St) (k : Nat) (r : String) : IO St := do
       match (s.intro.find? (·.1 == g.key)).map (·.2) with
       | none => s ← monitor s "payment_address" s!"htlc {g.key} was never notified"
       | some n =>
-        match n.mpp with
-        | some (_, a) =>
-          if a != d.addr then
-            s ← monitor s "payment_address" s!"htlc {g.key} settled with payment address {a} on invoice requiring {d.addr}"
-        | none =>
-          -- legacy htlc on an invoice that requires a payment address: only a valid keysend
-          if sha256Hex n.ks != some n.hash || n.ks.length != 64 then
-            s ← monitor s "payment_address" s!"htlc {g.key} without payment address settled on invoice {d.hash} that requires one"
+        if let some why := addrViolation n d.addr then
+          s ← monitor s "payment_address" s!"htlc {g.key} settled on invoice {d.hash} that requires payment address {d.addr}: {why}"
   -- AMP: per-htlc preimage recorded and valid
   if isAmp then
     for g in set do
@@ -315,12 +324,18 @@ def finishOp (s : St) : IO St := do
     if (findHtlcD s.prev n.key).isNone && (findHtlcD s.cur n.key).isSome then
       if !(s.intro.any (·.1 == n.key)) then
         s := { s with intro := (n.key, n) :: s.intro }
+        -- the htlc was accepted (held or settled) into an invoice: address rule at accept time
+        if let some (d, _) := findHtlcD s.cur n.key then
+          if d.feat.contains 'P' then
+            s := { s with acceptsChecked := s.acceptsChecked + 1 }
+            if let some why := addrViolation n d.addr then
+              s ← monitor s "payment_address" s!"htlc {n.key} accepted ({s.opRes.take 40}) into invoice {d.hash} that requires payment address {d.addr}: {why}"
   -- (D) replay_same_verdict
   if let some n := s.opNotify then
     if let some (d, h) := findHtlcD s.prev n.key then
       if let some orig := (s.intro.find? (·.1 == n.key)).map (·.2) then
         let sameRoute := orig.hash == n.hash && (orig.mpp.map (·.2)) == (n.mpp.map (·.2)) &&
-          orig.amp == n.amp && orig.ks == n.ks
+          orig.amp == n.amp && orig.ks == n.ks && orig.path == n.path
         if sameRoute then
           s := { s with replaysChecked := s.replaysChecked + 1 }
           let want := if h.st == "A" then "accept" else if h.st == "S" then "settle" else "fail"
@@ -400,6 +415,7 @@ def mkCtx (n : NotifyRec) : Ctx :=
   { hash := hexNatD n.hash, key := n.key, amt := n.amt, expiry := n.exp, height := n.ht,
     rejectDelta := 0, now := 0,
     mpp := n.mpp.map (fun (t, a) => (t, hexNatD a)),
+    pathID := n.path.map hexNatD, total := n.tot,
     amp := n.amp.isSome,
     ks := if n.ks == "none" then none
           else if n.ks.length == 64 then some (some (hexNatD n.ks)) else some none }
@@ -461,7 +477,8 @@ def step (s : St) (line : String) : IO St := do
         preimage := match kv? rest "pre" with | some "none" => none | some p => some (hexNatD p) | none => none,
         finalCltv := (kvInt? rest "cltv").getD 0, tlv := feat.contains 't',
         payAddrOpt := feat.contains 'p', payAddrReq := feat.contains 'P', mppOpt := feat.contains 'm',
-        ampReq := feat.contains 'a', hodl := kvNat? rest "hodl" == some 1 }
+        ampReq := feat.contains 'a', blinded := feat.contains 'b',
+        hodl := kvNat? rest "hodl" == some 1 }
     if s.samples < 2 then IO.println s!"SAMPLE {line.take 300}"
     if spec.ampReq then
       -- AMP invoices are outside the model: monitor only for the rest of this case
@@ -479,7 +496,12 @@ def step (s : St) (line : String) : IO St := do
           | some "none" => none
           | some a => some ((a.splitOn "/").headD "")
           | none => none,
-        ks := (kv? rest "ks").getD "none" }
+        ks := (kv? rest "ks").getD "none",
+        path := match kv? rest "path" with
+          | some "none" => none
+          | some a => some a
+          | none => none,
+        tot := (kvNat? rest "tot").getD 0 }
     let s := { s with opNotify := some n, samples := s.samples + 1 }
     if s.samples ≤ 4 then IO.println s!"SAMPLE {line.take 300}"
     let s := if resClass s.opRes == "settle" || resClass s.opRes == "accept" then
@@ -552,6 +574,7 @@ def main (args : List String) : IO Unit := do
   IO.println s!"STAT model_compared_ops={s.modelOps}"
   IO.println s!"STAT nontrivial={s.nontrivial}"
   IO.println s!"STAT settle_resolutions_checked={s.settlesChecked}"
+  IO.println s!"STAT accepts_address_checked={s.acceptsChecked}"
   IO.println s!"STAT replays_checked={s.replaysChecked}"
   IO.println s!"STAT invoice_transitions_checked={s.transitionsChecked}"
   IO.println s!"STAT settled_dumps_checked={s.paidChecked}"
